@@ -71,6 +71,11 @@ class Fn:
         self.vcmp = False       # calls esl_{D,F}Compare_old (`VCmp`)
         self.vinf = False       # floating-point routine using negation / infinity / exp / log / exp2 (`VInf`)
         self.vnum = False       # floating-point routine using division / log2 / `(double) n` (`VNum`)
+        self.vint = False       # converts `int` cells to the floating element type (`VInt α ι`)
+        self.arrtype = {}       # C array name -> 'α' (the element type) | 'ω' (double cells in a float routine) | 'ι' (int cells in a floating routine)
+        self.vfin = False       # uses `isfinite` / `fabs` at the element type (`VFin α`)
+        self.wfin = False       # ... at the wide type (`VFin ω`)
+        self.labels = {}        # label declId -> the statements that follow the label (function level)
         self.winf = False       # ... and among them negation / infinity / exp / log (`VInf ω`; otherwise `VNum ω` suffices)
         self.mix = False        # a `float` routine with sub-expressions the C text evaluates in `double` (`VMix α ω`: widen / narrow)
         self.wrap = False       # uses gcc's wrap-around / truncation semantics (`CWrap`): the `return x1 - x2` comparator idiom
@@ -139,9 +144,26 @@ class Fn:
                 decls.append(x)
         self.walk(body, g)
         # element type: from the pointer parameters / the `* (T *) p` dereferences
+        fp_ptr = any(re.fullmatch(r"(double|float) \*(\*?)", strip_q(d["type"]["qualType"])) for d in decls)
+        bases = set()
+        for d in decls:
+            m = re.fullmatch(r"(\w+) \*", strip_q(d["type"]["qualType"]))
+            if m and m.group(1) not in ("void", "char"):
+                bases.add(m.group(1))
+        if bases == {"double", "float"}:                             # conversion routines: the double cells are the wide type
+            self.elemtype = "float"
+        elif bases in ({"int", "float"}, {"int", "double"}):
+            self.elemtype = (bases - {"int"}).pop()
         for d in decls:
             t = strip_q(d["type"]["qualType"])
             m = re.fullmatch(r"(\w+) \*(\*?)", t)
+            if m and m.group(1) == "char" and fp_ptr and d["kind"] == "ParmVarDecl":
+                continue                                             # `char *errbuf`: message text is outside the model
+            if m and not m.group(2) and len(bases) == 2 and m.group(1) in bases and m.group(1) != self.elemtype:
+                self.arrtype[d["name"]] = "ω" if m.group(1) == "double" else "ι"
+                if m.group(1) == "double": self.mix = True
+                else: self.vint = True
+                continue
             if m and m.group(1) != "void":
                 self.set_elem(m.group(1), d)
         def h(x):
@@ -155,7 +177,9 @@ class Fn:
         for d in decls:
             t = strip_q(d["type"]["qualType"])
             nm = d["name"]
-            if re.fullmatch(r"\w+ \*\*", t):
+            if t == "char *" and fp_ptr and d["kind"] == "ParmVarDecl":
+                self.kind[nm] = "msg"
+            elif re.fullmatch(r"\w+ \*\*", t):
                 self.kind[nm] = "mat"
             elif t == "void *":
                 self.kind[nm] = "voidp"
@@ -246,6 +270,12 @@ class Fn:
                 return self.ident(base["referencedDecl"]["name"])
         raise Unsupported("%s: array expression of kind %s" % (self.where(n), n["kind"]))
 
+    def arr_ty(self, n):
+        n = unwrap(n, casts=("LValueToRValue", "NoOp", "BitCast"))
+        if n["kind"] == "DeclRefExpr":
+            return self.arrtype.get(n["referencedDecl"]["name"], "α")
+        return "α"
+
     def elem(self, n, out, target=None):
         """element-kind expression; emits `let` lines into out; returns a Lean atom (a name or a parenthesised pure term)"""
         n0 = n
@@ -267,6 +297,8 @@ class Fn:
             a = self.ident(nm)
         elif k == "ArraySubscriptExpr":
             arr = self.arr_of(n["inner"][0])
+            if self.arr_ty(n["inner"][0]) != "α":
+                raise Unsupported("%s: cell of %s read at the element type without a conversion" % (self.where(n), arr))
             i = self.idx(n["inner"][1])
             a = target or self.fresh()
             out.append("let %s ← rd %s %s" % (a, arr, i))
@@ -326,11 +358,21 @@ class Fn:
                 raise Unsupported("%s: argument count of %s" % (self.where(n), self.callee(n)))
             x = self.elem(n["inner"][1], out)
             a = "(%s %s)" % (tab[self.callee(n)], x); self.stats["n_calls"] += 1
+        elif k == "CallExpr" and self.callee(n) in (("fabs",) if self.elemtype == "double" else ("fabsf",) if self.elemtype == "float" else ()) and len(n["inner"]) == 2:
+            x = self.elem(n["inner"][1], out); self.vfin = True
+            a = "(VFin.abs %s)" % x; self.stats["n_calls"] += 1
         elif k == "CallExpr" and self.callee(n) in self.known and self.known[self.callee(n)].ret == "elem":
             return self.call(n, out, want_ret=True) if not target else self.bind_as(target, self.call(n, out, want_ret=True), out)
         elif k in ("CStyleCastExpr", "ImplicitCastExpr") and n.get("castKind") == "IntegralToFloating" and self.is_idx_expr(n["inner"][0]):
             self.need_double(n); self.vnum = True                    # `(double) n` for a length / index
             a = "(VNum.ofNat (%s).toNat : α)" % self.idx(n["inner"][0])
+        elif k in ("ImplicitCastExpr", "CStyleCastExpr") and n.get("castKind") == "IntegralToFloating" and unwrap(n["inner"][0])["kind"] == "ArraySubscriptExpr" \
+                and self.arr_ty(unwrap(n["inner"][0])["inner"][0]) == "ι" and strip_q(n["type"]["qualType"]) == self.elemtype:
+            sub = unwrap(n["inner"][0])
+            t = self.fresh()
+            out.append("let %s ← rd %s %s" % (t, self.arr_of(sub["inner"][0]), self.idx(sub["inner"][1])))
+            self.monadic = True; self.stats["n_reads"] += 1; self.vint = True
+            a = "(VInt.ofInt %s)" % t                                  # `(T) src[i]` for an `int` cell
         elif k in ("ImplicitCastExpr", "CStyleCastExpr") and n.get("castKind") == "FloatingCast" and self.elemtype == "float" \
                 and strip_q(n["type"]["qualType"]) == "float" and self.is_wide(n["inner"][0]):
             w = self.welem(n["inner"][0], out)                       # `(float) <double expression>`: the one rounding to binary32
@@ -401,6 +443,11 @@ class Fn:
                 return "(VInf.inf : ω)" if self.inf_tree(n0) == 1 else "(VInf.neg (VInf.inf : ω))"
             x = self.elem(n["inner"][0], out)                        # `(double) <float expression>`: exact
             return "(VMix.widen %s : ω)" % x
+        if k == "ArraySubscriptExpr" and self.arr_ty(n["inner"][0]) == "ω":
+            t = self.fresh()
+            out.append("let %s ← rd %s %s" % (t, self.arr_of(n["inner"][0]), self.idx(n["inner"][1])))
+            self.monadic = True; self.stats["n_reads"] += 1
+            return t
         lit = self.int_literal(n)
         if lit is not None:
             if lit < 0: self.winf = True
@@ -422,6 +469,9 @@ class Fn:
             return "(%s %s)" % (LIBM_D[self.callee(n)], x)
         if k in ("CStyleCastExpr", "ImplicitCastExpr") and n.get("castKind") == "IntegralToFloating" and self.is_idx_expr(n["inner"][0]):
             return "(VNum.ofNat (%s).toNat : ω)" % self.idx(n["inner"][0])
+        if k == "CallExpr" and self.callee(n) == "fabs" and len(n["inner"]) == 2:
+            x = self.welem(n["inner"][1], out); self.wfin = True; self.stats["n_calls"] += 1
+            return "(VFin.abs %s)" % x
         raise Unsupported("%s: double-typed expression of kind %s %s in a float routine" % (self.where(n), k, n.get("opcode", "")))
 
     def is_inf(self, n):
@@ -450,9 +500,30 @@ class Fn:
                 pre = []
                 a = self.cond(n["inner"][0], out)
                 b = self.cond(n["inner"][1], pre)
-                if pre:
-                    raise Unsupported("%s: short-circuit operand with memory access" % self.where(n))
+                if pre:                                              # the right operand reads memory: evaluate it only when C does
+                    cn = self.fresh()
+                    if op == "||":
+                        out.append("let %s ← if %s then pure true else do" % (cn, a))
+                        out.extend("    " + l for l in pre + ["pure %s" % b])
+                    else:
+                        out.append("let %s ← if %s then do" % (cn, a))
+                        out.extend("    " + l for l in pre + ["pure %s" % b])
+                        out.append("  else pure false")
+                    self.monadic = True
+                    return cn
                 return "(%s %s %s)" % (a, op, b)
+            if op in ("==", "!=") and unwrap(n["inner"][0])["kind"] == "BinaryOperator" and unwrap(n["inner"][0]).get("opcode") == "=" \
+                    and self.int_literal(n["inner"][1]) is not None:
+                asg = unwrap(n["inner"][0])
+                l = unwrap(asg["inner"][0]); r = unwrap(asg["inner"][1])
+                if not (l["kind"] == "DeclRefExpr" and self.kind.get(l["referencedDecl"]["name"]) == "idx" and r["kind"] == "CallExpr"
+                        and self.callee(r) in self.known and self.known[self.callee(r)].ret == "idx"):
+                    raise Unsupported("%s: assignment inside a condition" % self.where(n))
+                t = self.call(r, out, want_ret=True)
+                v = self.ident(l["referencedDecl"]["name"])
+                out.append("let %s : Int := %s" % (v, t))
+                self.bound.add(l["referencedDecl"]["name"])
+                return "(decide (%s %s %d))" % (v, "=" if op == "==" else "≠", self.int_literal(n["inner"][1]))
             if op in ("==", "!=") and unwrap(n["inner"][0])["kind"] == "CallExpr" and self.callee(unwrap(n["inner"][0])) in EXTERNAL \
                     and self.int_literal(n["inner"][1]) is not None:
                 c = unwrap(n["inner"][0])
@@ -483,6 +554,12 @@ class Fn:
                 raise Unsupported("%s: %s on elements (NaN-sensitive) is outside the subset" % (self.where(n), op))
         if k == "UnaryOperator" and n["opcode"] == "!":
             return "(!%s)" % self.cond(n["inner"][0], out)
+        if k == "CallExpr" and self.callee(n) in ("__builtin_isfinite", "isfinite") and len(n["inner"]) == 2 and self.elemtype in ("double", "float"):
+            if self.is_wide(n["inner"][1]):
+                x = self.welem(n["inner"][1], out); self.wfin = True
+            else:
+                x = self.elem(n["inner"][1], out); self.vfin = True
+            return "(VFin.isFinite %s)" % x
         if self.is_idx_expr(n):
             return "(decide (%s ≠ 0))" % self.idx(n)
         raise Unsupported("%s: condition of kind %s %s" % (self.where(n), k, n.get("opcode", "")))
@@ -498,7 +575,72 @@ class Fn:
             return out
         if n["kind"] == "NullStmt":
             return []
+        if n["kind"] == "DoStmt" and self.int_literal(n["inner"][1]) == 0 and self.alloc_of(n) is not None:
+            return [self.alloc_of(n)]                                 # ESL_ALLOC(p, sizeof(T) * n)
+        if n["kind"] == "DoStmt" and self.int_literal(n["inner"][1]) == 0:      # the statement macros `do { … } while (0)`
+            found = []
+            self.walk(n["inner"][0], lambda x: found.append(1) if x.get("kind") in ("BreakStmt", "ContinueStmt") else None)
+            if found:
+                raise Unsupported("%s: break / continue inside do { } while (0)" % self.where(n))
+            return self.flatten(n["inner"][0])
+        if n["kind"] == "LabelStmt":
+            return [{"kind": "LabelMark", "declId": n.get("declId")}] + self.flatten(n["inner"][0])
+        if self.msg_only(n):
+            return []
         return [n]
+
+    def alloc_of(self, n):
+        """`ESL_ALLOC(p, sizeof(T) * cnt)` (a `do { … p = malloc(size) … } while (0)` whose other branches report a failed / zero-size
+        allocation and `goto ERROR`): the pseudo-statement `p = fresh array of cnt cells`; a failed allocation is outside the model and
+        `cnt <= 0` is a fault of the model (the macro raises an exception there)"""
+        hits = []
+        def f(x):
+            if x.get("kind") == "BinaryOperator" and x.get("opcode") == "=":
+                l = unwrap(x["inner"][0])
+                r = unwrap(x["inner"][1], casts=("LValueToRValue", "NoOp", "BitCast"))
+                if l["kind"] == "DeclRefExpr" and r["kind"] == "CallExpr":
+                    try:
+                        if self.callee(r) == "malloc":
+                            hits.append((l["referencedDecl"]["name"], r["inner"][1]))
+                    except Unsupported:
+                        pass
+        self.walk(n, f)
+        if len(hits) != 1:
+            return None
+        nm, size = hits[0]
+        size = unwrap(size, casts=("LValueToRValue", "NoOp", "IntegralCast"))
+        if not (size["kind"] == "BinaryOperator" and size["opcode"] == "*"):
+            return None
+        a, b = size["inner"]
+        a = unwrap(a, casts=("LValueToRValue", "NoOp", "IntegralCast"))
+        if not (a["kind"] == "UnaryExprOrTypeTraitExpr" and a.get("name") == "sizeof" and strip_q(a.get("argType", {}).get("qualType", "")) == self.elemtype):
+            return None
+        if self.kind.get(nm) != "arr":
+            return None
+        return {"kind": "AllocMark", "var": nm, "count": b}
+
+    def msg_only(self, n):
+        """a statement that only touches the caller's message buffer (`if (errbuf) *errbuf = 0;`, `esl_fail(errbuf, …)`): no effect in the model"""
+        k = n.get("kind")
+        if k == "CallExpr":
+            try:
+                if self.callee(n) == "free" and len(n["inner"]) == 2:
+                    return True                                      # memory management is outside the model (LeakSanitizer covers the C side)
+                return self.callee(n) in ("esl_fail", "snprintf", "sprintf") and len(n["inner"]) > 1 and \
+                    [self.kind.get(v) for v in self.vars_in(n["inner"][1])] == ["msg"]
+            except Unsupported:
+                return False
+        if k == "IfStmt" and len(n.get("inner", [])) == 2 and not self.has_return(n) and self.flatten(n["inner"][1]) == [] \
+                and not self.assigned([n["inner"][0]]):
+            return True                                              # `if (p != NULL) free(p);`
+        if k == "IfStmt" and len(n.get("inner", [])) == 2 and not self.has_return(n):
+            c = unwrap(n["inner"][0], casts=("LValueToRValue", "NoOp", "PointerToBoolean"))
+            if c["kind"] == "BinaryOperator" and c.get("opcode") == "!=":
+                c = unwrap(c["inner"][0], casts=("LValueToRValue", "NoOp"))
+            if c["kind"] == "DeclRefExpr" and self.kind.get(c["referencedDecl"]["name"]) == "msg":
+                asg = self.assigned(self.flatten(n["inner"][1]))
+                return all(self.kind.get(v) == "msg" for v in asg)
+        return False
 
     def has_return(self, n):
         found = []
@@ -523,6 +665,9 @@ class Fn:
                         add(b["referencedDecl"]["name"])
                     elif b["kind"] == "ArraySubscriptExpr":
                         add(unwrap(b["inner"][0])["referencedDecl"]["name"])
+                elif l["kind"] == "UnaryOperator" and l.get("opcode") == "*":
+                    for v in self.vars_in(l):
+                        add(v)
             elif k == "UnaryOperator" and x.get("opcode") in ("++", "--"):
                 add(unwrap(x["inner"][0])["referencedDecl"]["name"])
             elif k == "VarDecl" and x.get("inner"):
@@ -618,8 +763,11 @@ class Fn:
         self.vnum = self.vnum or getattr(sig, "vnum", False)
         self.mix = self.mix or getattr(sig, "mix", False)
         self.winf = self.winf or getattr(sig, "winf", False)
+        self.vfin = self.vfin or getattr(sig, "vfin", False)
+        self.wfin = self.wfin or getattr(sig, "wfin", False)
         args, wr = [], []
-        for a, (pn, pk) in zip(n["inner"][1:], sig.params):
+        actual = [a for a in n["inner"][1:] if [self.kind.get(v) for v in self.vars_in(a)] != ["msg"]]
+        for a, (pn, pk) in zip(actual, sig.params):
             if pk == "arr":
                 x = self.arr_of(a)
                 args.append(x)
@@ -651,10 +799,19 @@ class Fn:
     def stmt(self, s, lines, after):
         """one statement without `return`; `after` = the statements that follow it in the function (for liveness)"""
         k = s["kind"]
+        if k == "AllocMark":
+            v = self.ident(s["var"])
+            lines.append("let %s ← allocM (%s) (CElem.ofNat 0 : α)" % (v, self.idx(s["count"])))
+            self.monadic = True
+            return
         if k == "DeclStmt":
             for v in s["inner"]:
                 if v["kind"] != "VarDecl":
                     raise Unsupported("%s: declaration" % self.where(s))
+                if self.kind.get(v["name"]) == "arr":
+                    if v.get("inner") and unwrap(v["inner"][0], casts=("NullToPointer", "NoOp", "BitCast")).get("castKind") not in (None, "NullToPointer") :
+                        raise Unsupported("%s: pointer initialiser" % self.where(s))
+                    continue                                         # `T *p = NULL;` : the array exists from its ESL_ALLOC on
                 if v.get("inner"):
                     self.assign_scalar(v["name"], v["inner"][0], lines, node=s)
             return
@@ -670,7 +827,11 @@ class Fn:
                 i = self.idx(l["inner"][1])
                 if op != "=" and strip_q(s.get("computeResultType", {}).get("qualType", self.elemtype)) not in (self.elemtype, {"int64_t": "long"}.get(self.elemtype, "")):
                     raise Unsupported("%s: compound assignment computed at type %s" % (self.where(s), s.get("computeResultType", {}).get("qualType")))
-                if op == "=":
+                if self.arr_ty(l["inner"][0]) != "α":
+                    if op != "=" or self.arr_ty(l["inner"][0]) != "ω":
+                        raise Unsupported("%s: only plain assignment into a double array of a float routine" % self.where(s))
+                    v = self.welem(rhs, lines)
+                elif op == "=":
                     v = self.elem(rhs, lines)
                 elif op == "/=":
                     self.need_double(s); self.vnum = True
@@ -871,19 +1032,26 @@ class Fn:
                 lines.append(pad + "else")
                 lines.extend(self.block(stmts[j + 1:], ind + 1))
                 return lines
+            if k == "GotoStmt":
+                tgt = s.get("targetLabelDeclId")
+                if tgt not in self.labels:
+                    raise Unsupported("%s: goto to an unknown / nested label" % self.where(s))
+                lines.extend(self.block(self.labels[tgt], ind))
+                return lines
             if k == "IfStmt" and self.has_return(s):
                 th = self.flatten(s["inner"][1])
-                if len(s["inner"]) > 2 or s.get("hasInit") or s.get("hasVar") or not (len(th) == 1 and th[0]["kind"] == "ReturnStmt"):
-                    raise Unsupported("%s: only `if (c) return e;` may return" % self.where(s))
+                el = self.flatten(s["inner"][2]) if len(s["inner"]) > 2 else []
+                if s.get("hasInit") or s.get("hasVar"):
+                    raise Unsupported("%s: if with init" % self.where(s))
                 pre = []
                 c = self.cond(s["inner"][0], pre)
                 lines.extend(pad + x for x in pre)
                 saved = set(self.bound)
                 lines.append(pad + "if %s then" % c)
-                lines.extend(self.block(th, ind + 1))
-                self.bound = saved
+                lines.extend(self.block(th + stmts[j + 1:], ind + 1))
+                self.bound = set(saved)
                 lines.append(pad + "else")
-                lines.extend(self.block(stmts[j + 1:], ind + 1))
+                lines.extend(self.block(el + stmts[j + 1:], ind + 1))
                 return lines
             sub = []
             self.stmt(s, sub, stmts[j + 1:])
@@ -892,6 +1060,37 @@ class Fn:
             raise Unsupported("%s: control reaches the end of a non-void function" % self.where())
         lines.append(pad + "return! " + self.result(None))
         return lines
+
+    def live_part(self, stmts):
+        """the statements of a loop body without the branches that end in `return` / `goto` (what they assign is not carried round the loop)"""
+        out = []
+        for x in stmts:
+            if x["kind"] in ("ReturnStmt", "GotoStmt"):
+                break
+            if x["kind"] == "IfStmt" and self.has_return(x):
+                th = self.flatten(x["inner"][1])
+                el = self.flatten(x["inner"][2]) if len(x["inner"]) > 2 else []
+                y = dict(x)
+                def part(b):
+                    b2 = self.live_part(b)
+                    dead = bool(b) and len(b2) < len(b) and (not b2 or True) and self.ends(b)
+                    return [] if dead else b2
+                y["inner"] = [x["inner"][0], {"kind": "CompoundStmt", "inner": part(th)}, {"kind": "CompoundStmt", "inner": part(el)}]
+                out.append(y)
+            else:
+                out.append(x)
+        return out
+
+    def ends(self, stmts):
+        """does every path through stmts end in return / goto?"""
+        if not stmts:
+            return False
+        last = stmts[-1]
+        if last["kind"] in ("ReturnStmt", "GotoStmt"):
+            return True
+        if last["kind"] == "IfStmt" and len(last["inner"]) > 2:
+            return self.ends(self.flatten(last["inner"][1])) and self.ends(self.flatten(last["inner"][2]))
+        return False
 
     def ret_loop(self, s, rest, ind):
         """`for (i = lo; i < hi; i++) body` whose body may `return e;` on some paths and carries state on the others:
@@ -913,16 +1112,16 @@ class Fn:
             raise Unsupported("%s: loop increment is not `%s++`" % (self.where(s), iv))
         bs = self.flatten(body)
         found = []
-        self.walk(body, lambda x: found.append(1) if x.get("kind") in ("BreakStmt", "ContinueStmt", "GotoStmt") else None)
+        self.walk(body, lambda x: found.append(1) if x.get("kind") in ("BreakStmt", "ContinueStmt") else None)
         if found:
-            raise Unsupported("%s: break / continue / goto in a loop" % self.where(s))
-        asg = self.assigned(bs)
+            raise Unsupported("%s: break / continue in a loop" % self.where(s))
+        asg = self.assigned(self.live_part(bs))
         if iv in asg:
             raise Unsupported("%s: loop counter assigned in the body" % self.where(s))
         if set(self.vars_in(c["inner"][1])) & set(asg):
             raise Unsupported("%s: loop bound modified by the body" % self.where(s))
         hi = self.idx(c["inner"][1])
-        rbw = self.reads_before_write(bs)
+        rbw = self.reads_before_write(self.live_part(bs))
         later = set()
         for x in rest:
             later.update(self.vars_in(x))
@@ -954,6 +1153,12 @@ class Fn:
                     r = ("(%s : Int)" % self.idx(x["inner"][0])) if self.ret == "idx" else self.elem(x["inner"][0], pre)
                     out.extend(p2 + l for l in pre)
                     out.append(p2 + "pure (Sum.inl %s)" % r)
+                    return out
+                if k == "GotoStmt":
+                    tgt = x.get("targetLabelDeclId")
+                    if tgt not in self.labels:
+                        raise Unsupported("%s: goto to an unknown / nested label" % self.where(x))
+                    out.extend(body_block(self.labels[tgt], depth))      # (the label's statements must end in `return`)
                     return out
                 if k == "IfStmt" and self.has_return(x):
                     if x.get("hasInit") or x.get("hasVar"):
@@ -1015,11 +1220,12 @@ class Fn:
                 continue
             nm = c["name"]
             k = self.kind[nm]
-            if nm in self.alias:
+            if nm in self.alias or k == "msg":
                 continue
             ln = self.ident(nm)
             if k in ("arr", "mat"):
-                params.append("(%s : Array α)" % ln); sig_params.append((ln, "arr"))
+                params.append("(%s : Array %s)" % (ln, self.arrtype.get(nm, "α"))); sig_params.append((ln, "arr"))
+                self.leantype = getattr(self, "leantype", {}); self.leantype[ln] = self.arrtype.get(nm, "α")
                 self.kind[nm] = "arr" if k == "arr" else "mat"
             elif k in ("elem", "voidp"):
                 params.append("(%s : α)" % ln); sig_params.append((ln, "elem"))
@@ -1037,7 +1243,11 @@ class Fn:
             raise Unsupported("%s: return type %s" % (self.where(), rt))
         # arrays written are only known after the body is translated: translate with a placeholder
         self.out_arrays = []
-        lines = self.block(self.flatten(body), 1)
+        top = self.flatten(body)
+        for i, x in enumerate(top):
+            if x["kind"] == "LabelMark":
+                self.labels[x["declId"]] = [y for y in top[i + 1:] if y["kind"] != "LabelMark"]
+        lines = self.block([y for y in top if y["kind"] != "LabelMark"], 1)
         order = [p for p, k in sig_params if k == "arr" and p in self.written]
         self.out_arrays = order
         text_lines = []
@@ -1052,7 +1262,7 @@ class Fn:
                 text_lines.append(m.group(1) + ("pure " if self.monadic else "") + val)
             else:
                 text_lines.append(l)
-        tys = (["Int" if self.ret == "idx" else "α"] if self.ret else []) + ["Array α"] * len(order)
+        tys = (["Int" if self.ret == "idx" else "α"] if self.ret else []) + ["Array %s" % getattr(self, "leantype", {}).get(o, "α") for o in order]
         rty = " × ".join(tys)
         if self.monadic:
             head = "def %s %s%s : Option (%s) := do" % (self.name, self.binders(), " ".join(params), rty)
@@ -1068,11 +1278,14 @@ class Fn:
         sig.vnum = self.vnum
         sig.mix = self.mix
         sig.winf = self.winf
+        sig.vfin = self.vfin
+        sig.wfin = self.wfin
         return doc + "\n" + head + "\n" + "\n".join(text_lines) + "\n", sig
 
     def binders(self):
         return (("[CWrap α] " if self.wrap else "") + ("[VCmp α] " if self.vcmp else "") +
-                ("[VInf α] " if self.vinf else "[VNum α] " if self.vnum else "") + ("{ω : Type} [VMix α ω] [%s ω] " % ("VInf" if self.winf else "VNum") if self.mix else ""))
+                ("[VInf α] " if self.vinf else "[VNum α] " if self.vnum else "") + ("[VFin α] " if self.vfin else "") +
+                ("{ω : Type} [VMix α ω] [%s ω] " % ("VInf" if self.winf else "VNum") if self.mix else "") + ("[VFin ω] " if self.wfin else "") + ("{ι : Type} [VInt α ι] " if self.vint else ""))
 
     def result(self, r):
         return r or ""
@@ -1124,7 +1337,9 @@ def plan():
     # the probability / log-space routines over `double` (the `float` versions mix binary32 and binary64: hand model Vec/Model.lean)
     vec += [("esl_vec_D%s" % r, None, "") for r in ("Norm", "Log", "Log2", "Exp", "Exp2", "LogSum", "Log2Sum", "LogNorm", "Log2Norm", "Entropy")]
     vec += [("esl_vec_F%s" % r, None, "") for r in ("Norm", "Log", "Log2", "Exp", "Exp2", "LogSum", "Log2Sum", "LogNorm", "Log2Norm", "Entropy")]
-    vec += [("esl_vec_DRelEntropy", None, ""), ("esl_vec_FRelEntropy", None, "")]
+    vec += [("esl_vec_D2F", None, ""), ("esl_vec_F2D", None, ""), ("esl_vec_I2F", None, ""), ("esl_vec_I2D", None, "")]
+    vec += [("esl_vec_DRelEntropy", None, ""), ("esl_vec_FRelEntropy", None, ""), ("esl_vec_DValidate", None, ""), ("esl_vec_FValidate", None, "")]
+    vec += [("esl_vec_%s%sValidate" % (T, b), None, "") for b in ("Log", "Log2") for T in "DF"]
     vec += [("esl_vec_DCDF", None, ""), ("esl_vec_DCDF", {"cdf": "p"}, "_inplace"), ("esl_vec_FCDF", None, ""), ("esl_vec_FCDF", {"cdf": "p"}, "_inplace")]
     cmpf = [("qsort_%s%s" % (T, d), None, "") for d in ("Increasing", "Decreasing") for T in VEC_TYPES]
     sort = [("esl_vec_%sSort%s" % (T, d), None, "") for d in ("Increasing", "Decreasing") for T in VEC_TYPES]
@@ -1148,7 +1363,7 @@ def generate(src_dir, the_plan=None):
             if not alias:
                 known[nm] = sig
             chunks.append(text)
-            infos.append({"name": t.name, "elem": t.elemtype, "wrap": t.wrap, "vcmp": t.vcmp, "vinf": t.vinf or t.vnum or t.mix, "mix": t.mix, "params": sig.params, "writes": sig.writes, "ret": sig.ret, "monadic": t.monadic, **t.stats})
+            infos.append({"name": t.name, "elem": t.elemtype, "wrap": t.wrap, "vcmp": t.vcmp, "vinf": t.vinf or t.vnum or t.mix or t.vfin or t.vint, "mix": t.mix, "params": sig.params, "writes": sig.writes, "ret": sig.ret, "monadic": t.monadic, **t.stats})
     disp = ["/-- name → translated function; arguments grouped by kind in parameter order (arrays, indices, elements);",
             "    outer `none` = unknown name / wrong arity, inner `none` = the routine faults -/",
             "def dispatch %s(name : String) (A : List (Array α)) (I : List Int) (E : List α) : Option (Option (Res α)) :=" % ("[CWrap α] " if any(i["wrap"] for i in infos) else ""),
